@@ -3,6 +3,7 @@ import YaegiVerif.Expected.C19
 import YaegiVerif.Generated.C19
 import YaegiVerif.Proofs.C19Sim
 import YaegiVerif.Proofs.C19Track
+import YaegiVerif.Proofs.C19Reach
 /-
   C19 — running under the debugger does not change program behaviour. Property theorems.
 
@@ -24,7 +25,7 @@ import YaegiVerif.Proofs.C19Track
        `jump_line_regression`, `for_clause_regression`, `tagless_case_regression`,
        `panic_line_regression`, `signature_line_regression`); the model run with the facts of the
        older code reproduces the findings (`…_old_facts`, and the `preLineF` halves).
-       Not proved: that every node that executes is in `cfgNodes` (the correspondence compares, on
+       Proved since: `executed_node_in_cfgNodes`, `executed_line_is_valid` (the correspondence still compares, on
        every case, the marks-based reference with a reference that reads requested *lines* only).
 -/
 namespace YaegiVerif.Props.C19
@@ -630,5 +631,60 @@ theorem placeSteps_complete (F : LoopFacts) (g : Graph) (root : Nat) (lines : Li
   unfold placeSteps
   simp only [List.mem_filter, Bool.and_eq_true, List.contains_iff_mem]
   exact ⟨hw, ⟨hs, hr⟩, hl⟩
+
+/-! ### every node that executes is in `cfgNodes` -/
+
+/-- the entry points `cfgNodes(root)` starts from -/
+def entriesOf (F : LoopFacts) (g : Graph) (root : Nat) : List Nat :=
+  cfgEntries F g (preorder g (walkFuel g) [root]) root
+
+theorem cfgNodes_closed (F : LoopFacts) (g : Graph) (root : Nat) :
+    ClosedSet g (entriesOf F g root) (cfgNodes F g root) :=
+  cfgReach_closed g (entriesOf F g root)
+
+/-- **Every node that executes is in `cfgNodes(root)`** — for every graph, every program that follows
+    its edges (`Respects`) and enters `runCfg` only at the entry points `cfgNodes` starts from
+    (`CallsEnter`: the start of a function body, of a declaration or of the root — what `genRun`
+    generates from), at every step of the run: the owners of the executed closures and of the
+    closures of the live activations are reachable. (The walk of `cfgNodes` completes for every
+    graph: `cfgReach_closed`.) -/
+theorem executed_node_in_cfgNodes (F : LoopFacts) (g : Graph) (root : Nat) (P : Prog σ) (st : σ) (n : Nat)
+    (hR : Respects g P) (hE : CallsEnter P (entriesOf F g root)) :
+    (∀ c ∈ (prun P n (PCfg.init st)).trace, c.owner ∈ cfgNodes F g root) ∧
+    (∀ c ∈ (prun P n (PCfg.init st)).stack, c.owner ∈ cfgNodes F g root) := by
+  have := prun_inR g P (entriesOf F g root) (cfgNodes F g root) (cfgNodes_closed F g root) hR hE n (PCfg.init st)
+    ⟨by intro c hc; simp [PCfg.init] at hc, by intro c hc; simp [PCfg.init] at hc⟩
+  exact ⟨this.2, this.1⟩
+
+/-- the same under the debugger (it executes what the plain loop executes) -/
+theorem executed_node_in_cfgNodes_debug (S : Setup) (root : Nat) (P : Prog σ) (st : σ) (cmds : List Cmd) (n : Nat)
+    (hR : Respects S.g P) (hE : CallsEnter P (entriesOf S.F S.g root)) (h : Cmd.terminate ∉ cmds) :
+    ∀ c ∈ (drun S P n (DCfg.init st cmds)).trace, c.owner ∈ cfgNodes S.F S.g root := by
+  rw [(debug_exec_sequence_eq_plain S P st cmds n h).1]
+  exact (executed_node_in_cfgNodes S.F S.g root P st n hR hE).1
+
+/-- **A line on which a step executes is valid**: when a step of the program that lies below the root
+    (`(*node).Walk` reaches it: not so for the instances of the methods of generic types, F19-8) executes
+    on a requested line, `SetBreakpoints` has marked it: the request is `Valid`, and the node that
+    executes carries the breakpoint -/
+theorem executed_line_is_valid (g : Graph) (root : Nat) (P : Prog σ) (st : σ) (n : Nat) (rs : List BpReq)
+    (hR : Respects g P) (hE : CallsEnter P (entriesOf expF g root)) (c : Clo)
+    (hc : c ∈ (prun P n (PCfg.init st)).trace) (hs : isStep expF g c.owner = true)
+    (hw : c.owner ∈ preorder g (walkFuel g) [root]) (hl : BpReq.line (g.line c.owner) ∈ rs) :
+    c.owner ∈ placeLine expF g root rs ∧ lineValid g (placeLine expF g root rs) (g.line c.owner) = true := by
+  have hreach := (executed_node_in_cfgNodes expF g root P st n hR hE).1 c hc
+  have hlines : g.line c.owner ∈ reqLines rs := by
+    unfold reqLines
+    simp only [List.mem_filterMap]
+    exact ⟨.line (g.line c.owner), hl, rfl⟩
+  have hm : c.owner ∈ placeLine expF g root rs := by
+    have hp : expF.placeSteps = true := by rw [expF_val]
+    unfold placeLine
+    simp only [hp, ↓reduceIte]
+    exact placeSteps_complete expF g root (reqLines rs) c.owner hw hs hreach hlines
+  refine ⟨hm, ?_⟩
+  unfold lineValid
+  simp only [List.any_eq_true, beq_iff_eq]
+  exact ⟨c.owner, hm, rfl⟩
 
 end YaegiVerif.Props.C19
